@@ -238,6 +238,11 @@ async fn run_config(hist: &[Op], kind: BackendKind, cache: CacheCfg) -> (Vec<Str
                     t.push(format!("r.get({i}) {:?}", r.get(*i).await.map_err(|e| format!("{e}"))));
                 }
             }
+            Op::RClear(s, e) => {
+                if let Some(r) = rc.as_mut() {
+                    t.push(format!("r.clear({s},{e}) {:?}", r.clear(*s, *e).await.map_err(|e| format!("{e}"))));
+                }
+            }
             _ => {
                 if let Some(c) = wc.as_mut() {
                     let r = match op {
@@ -436,6 +441,13 @@ pub fn run(tier: &str) -> i32 {
         fams.push(json!({"family": format!("replica of {n}: well-formed request orders"), "depth": d, "histories": hr.len()}));
         hists.extend(hr.clone().into_iter().map(|h| (h, false)));
     }
+    // replica histories with writer growth, hash requests, replica clears and reopen (cache
+    // coherence on the replica side: nodes looked up while missing and received later)
+    let ag = |m: &SysModel| -> Vec<Op> { super::faults::replica_ops_growth(m, 5) };
+    let dg = if quick { 5 } else { 6 };
+    let hg = enumerate(dg, &super::c03::shape(2, 0, None), true, &ag);
+    fams.push(json!({"family": "replica of 2 growing to 5 (journal backend only x 3 cache settings)", "depth": dg, "histories": hg.len()}));
+    hists.extend(hg.into_iter().map(|h| (h, true)));
     if !quick {
         hists.push((vec![Op::BatchN(9000), Op::Clear(100, 8200), Op::Reopen, Op::Append(Blk::P(70000, 1)), Op::Clear(9000, 9001), Op::Reopen], false));
     }
